@@ -131,7 +131,7 @@ func TestC12WireFrames(t *testing.T) {
 	byEnc := map[string][]seedEncoding{"protobuf": seedsOf(seeds, "protobuf"), "json": seedsOf(seeds, "json")}
 	grid := wireGrid(env.Thorough())
 	meta := vrun.Meta{Property: "C12", Workload: "TestC12WireFrames", Total: len(grid),
-		Rule: "grid over a live wire.ClientConn (case i uses protobuf when i is even, JSON when odd): (collision) for each of the 7 request calls x each of the 29 message types, the peer answers the in-flight request with a well-formed frame of that type carrying the request's id, followed by the proper reply; (disconnect-no-reply) a Disconnect instead of the reply; (unsolicited) every message type with a stale, odd, huge or zero request id while nothing is in flight; (routed) stream-routed frames to subscribed/unsubscribed aliases and known/unknown source nodes, floods of call frames; (connect) every type and malformed bytes as the first frame wire.Connect reads; (malformed) corrupted encodings on an established connection; (storm) a request in flight while the peer sends 5-40 drawn frames of any non-colliding kind plus malformed ones before the reply. After each injection the fixed cooperative call sequence must return. Non-trivial: the injected frames were written and the connection answered or reported an error for every cooperative call; distinct: scenario string.",
+		Rule:        "grid over a live wire.ClientConn (case i uses protobuf when i is even, JSON when odd): (collision) for each of the 7 request calls x each of the 29 message types, the peer answers the in-flight request with a well-formed frame of that type carrying the request's id, followed by the proper reply; (disconnect-no-reply) a Disconnect instead of the reply; (unsolicited) every message type with a stale, odd, huge or zero request id while nothing is in flight; (routed) stream-routed frames to subscribed/unsubscribed aliases and known/unknown source nodes, floods of call frames; (connect) every type and malformed bytes as the first frame wire.Connect reads; (malformed) corrupted encodings on an established connection; (storm) a request in flight while the peer sends 5-40 drawn frames of any non-colliding kind plus malformed ones before the reply. After each injection the fixed cooperative call sequence must return. Non-trivial: the injected frames were written and the connection answered or reported an error for every cooperative call; distinct: scenario string.",
 		Assumptions: wireAssumptions}
 	vrun.Loop(t, meta, 0, func(c *vrun.Case) vrun.Result {
 		sc := grid[c.Index]
@@ -162,7 +162,7 @@ func runWireScenario(c *vrun.Case, sc wireScenario, e enc, seeds []seedEncoding)
 				return nil, false
 			}
 			if sc.Type == "malformed" {
-				first = hostileFrame(rng, seeds, e.name == "json")
+				first = hostileFrameNoKill(rng, seeds, e)
 			} else {
 				fm, _ := frameOf(sc.Type, 0)
 				var buf strings.Builder
@@ -203,13 +203,18 @@ func runWireScenario(c *vrun.Case, sc wireScenario, e enc, seeds []seedEncoding)
 	defer cancel()
 
 	// a first round trip: the connection works and there is a stale (answered) request id
-	warm := guarded(callTimeout, func() (any, error) { return wireCalls[0].Do(ctx, w.conn) })
+	warm := guarded(callTimeout, wireCalls[0].Name, func() (any, error) { return wireCalls[0].Do(ctx, w.conn) })
 	if !warm.Returned || warm.Panic != nil || warm.Err != nil {
 		r := vrun.Inconcl(fmt.Sprintf("warm-up round trip failed: returned=%v panic=%v err=%v", warm.Returned, warm.Panic, warm.Err))
 		r.Desc = desc
 		return r
 	}
-	staleID := uint32(4) // 0 connect, 2 first ping, 4 the warm-up (a later ping may have taken 4; either way it has been answered)
+	staleID, okID := w.br.lastRequestID("UpstreamMetadata") // the id of a request that has been answered: never outstanding again
+	if !okID {
+		r := vrun.Inconcl("the broker did not record the warm-up request")
+		r.Desc = desc
+		return r
+	}
 
 	callOutcome := ""
 	switch sc.Kind {
@@ -231,11 +236,11 @@ func runWireScenario(c *vrun.Case, sc wireScenario, e enc, seeds []seedEncoding)
 			}
 			return frames, true
 		})
-		res := guarded(callTimeout, func() (any, error) { return call.Do(ctx, w.conn) })
+		res := guarded(callTimeout, call.Name, func() (any, error) { return call.Do(ctx, w.conn) })
 		w.br.setIntercept(nil)
 		switch {
 		case !res.Returned:
-			if dec, at, hint := wedgeVerdict(res.Dump, call.Name); dec {
+			if at, hint := res.StuckAt, res.Hint; res.Decisive {
 				return wireViolation(&finding{"a request call never returns after its reply slot received a frame: it waits for a connection lock nobody holds", "hang:wire:" + sc.Kind + ":" + call.Name,
 					map[string]any{"scenario": sc.String(), "stuck_at": at, "other_waiters": hint, "goroutines": clip(res.Dump, 12000)}}, desc)
 			}
@@ -275,7 +280,7 @@ func runWireScenario(c *vrun.Case, sc wireScenario, e enc, seeds []seedEncoding)
 	case "malformed":
 		n := 1 + rng.Intn(4)
 		for i := 0; i < n; i++ {
-			w.br.send(hostileFrame(rng, seeds, e.name == "json"))
+			w.br.send(hostileFrameNoKill(rng, seeds, e))
 			injected++
 		}
 
@@ -324,12 +329,12 @@ func runWireScenario(c *vrun.Case, sc wireScenario, e enc, seeds []seedEncoding)
 			frames = append(frames, w.br.encode(w.br.reply(m)))
 			return frames, true
 		})
-		res := guarded(callTimeout, func() (any, error) { return call.Do(ctx, w.conn) })
+		res := guarded(callTimeout, call.Name, func() (any, error) { return call.Do(ctx, w.conn) })
 		w.br.setIntercept(nil)
 		desc["storm_call"] = call.Name
 		switch {
 		case !res.Returned:
-			if dec, at, hint := wedgeVerdict(res.Dump, call.Name); dec {
+			if at, hint := res.StuckAt, res.Hint; res.Decisive {
 				return wireViolation(&finding{"a request call never returns during a frame storm: it waits for a connection lock nobody holds", "hang:wire:storm:" + call.Name,
 					map[string]any{"scenario": sc.String(), "stuck_at": at, "other_waiters": hint, "goroutines": clip(res.Dump, 12000)}}, desc)
 			}
@@ -375,8 +380,8 @@ func runWireScenario(c *vrun.Case, sc wireScenario, e enc, seeds []seedEncoding)
 	return r
 }
 
-// hostileFrameNoKill is hostileFrame, except that anything the decoder would accept is replaced by bytes it rejects:
-// a storm must not contain an accidental well-formed reply of another type for an outstanding id.
+// hostileFrameNoKill is hostileFrame restricted to bytes the decoder rejects: an accidentally well-formed frame could be a
+// reply of another type for an outstanding request or keepalive id (that input class has its own scenarios/workload).
 func hostileFrameNoKill(rng *rand.Rand, seeds []seedEncoding, e enc) []byte {
 	for i := 0; i < 8; i++ {
 		f := hostileFrame(rng, seeds, e.name == "json")
@@ -393,7 +398,7 @@ func runRouted(c *vrun.Case, sc wireScenario, w *wireEnv, ctx context.Context, i
 	metaCh, _ := w.conn.SubscribeDownstreamMeta(ctx, alias, "src-known")
 	chunkCh, _ := w.conn.SubscribeDownstreamChunk(ctx, alias, message.QoSReliable)
 	ackcCh, _ := w.conn.SubscribeDownstreamChunkAckComplete(ctx, alias)
-	up := guarded(callTimeout, func() (any, error) { return wireCalls[1].Do(ctx, w.conn) })
+	up := guarded(callTimeout, wireCalls[1].Name, func() (any, error) { return wireCalls[1].Do(ctx, w.conn) })
 	var upAlias uint32 = 1
 	if up.Returned && up.Err == nil && up.Panic == nil {
 		upAlias = up.Val.(*message.UpstreamOpenResponse).AssignedStreamIDAlias
@@ -463,14 +468,14 @@ func runRouted(c *vrun.Case, sc wireScenario, w *wireEnv, ctx context.Context, i
 		}
 	case "DownstreamCall":
 		if subscribed {
-			rc := guarded(callTimeout, func() (any, error) { return w.conn.ReceiveDownstreamCall(ctx) })
+			rc := guarded(callTimeout, "ReceiveDownstreamCall", func() (any, error) { return w.conn.ReceiveDownstreamCall(ctx) })
 			if rc.Returned && rc.Panic != nil {
 				return &finding{"ReceiveDownstreamCall panicked", "panic:wire:ReceiveDownstreamCall", map[string]any{"panic": fmt.Sprint(rc.Panic), "stack": rc.Stack}}
 			}
 		}
 	case "UpstreamCallAck":
 		if subscribed {
-			rc := guarded(callTimeout, func() (any, error) { return w.conn.ReceiveUpstreamCallAck(ctx) })
+			rc := guarded(callTimeout, "ReceiveUpstreamCallAck", func() (any, error) { return w.conn.ReceiveUpstreamCallAck(ctx) })
 			if rc.Returned && rc.Panic != nil {
 				return &finding{"ReceiveUpstreamCallAck panicked", "panic:wire:ReceiveUpstreamCallAck", map[string]any{"panic": fmt.Sprint(rc.Panic), "stack": rc.Stack}}
 			}
@@ -489,7 +494,7 @@ func TestC12WireKeepalive(t *testing.T) {
 	mustSeeds(t)
 	total := env.Pick(4, 9)
 	meta := vrun.Meta{Property: "C12", Workload: "TestC12WireKeepalive", Total: total,
-		Rule: "case i: on an established connection the peer answers the third keepalive Ping with a well-formed frame of type keepaliveTypes[i] carrying the ping's request id, then with the proper Pong (type Pong itself is the control). The connection must go on pinging or close; a panic here is in a library goroutine and kills the process (the runner reports the crashed child). Non-trivial: the colliding frame was written while the ping was outstanding and a later ping or the closed notification was observed; distinct: frame type.",
+		Rule:        "case i: on an established connection the peer answers the third keepalive Ping with a well-formed frame of type keepaliveTypes[i] carrying the ping's request id, then with the proper Pong (type Pong itself is the control). The connection must go on pinging or close; a panic here is in a library goroutine and kills the process (the runner reports the crashed child). Non-trivial: the colliding frame was written while the ping was outstanding and a later ping or the closed notification was observed; distinct: frame type.",
 		Assumptions: wireAssumptions}
 	vrun.Loop(t, meta, 1, func(c *vrun.Case) vrun.Result {
 		ty := keepaliveTypes[c.Index%len(keepaliveTypes)]
@@ -530,8 +535,10 @@ func TestC12WireKeepalive(t *testing.T) {
 		deadline := time.After(60 * time.Second)
 		for after < 3 {
 			select {
-			case <-w.br.pingSeen:
-				after++
+			case pid := <-w.br.pingSeen:
+				if pid > id {
+					after++
+				}
 			case <-w.conn.Closed():
 				after = 99
 			case <-deadline:
